@@ -198,7 +198,24 @@ func gen(f vh.Flags, r *vrand.R, emit func(In)) {
 			if builder {
 				// the same workload on an index made by the offline Builder (safe batches: after
 				// the clean close the source must hold every batch)
-				in.Layout.Unsafe = false
+				in.Layout.Unsafe = k%8 == 3 // with unsafe batches the backed-up root usually has no snapshot record of its own
+				in.Layout.Keep = 1
+				// a slow backup taken straight after opening, while the Builder's segment is merged
+				// away, the merged root persisted and the old snapshot purged
+				front := []Action{}
+				if in.Layout.Unsafe {
+					// ... and the backed-up root is one the persister never gives a record of its own
+					in.Layout.Opts = 5
+					front = append(front, Action{Kind: "batch", Ops: genOps(r, nids, &ver)})
+				}
+				front = append(front, Action{Kind: "copy", Dest: "copyb", US: vrand.Pick(r, []int{150000, 250000})})
+				// while the backup sits before its first segment file: another batch, time for the
+				// persister to write everything down, a merge of all files, time to persist the merged
+				// root and purge what it replaced
+				front = append(front, Action{Kind: "batch", Ops: genOps(r, nids, &ver)}, Action{Kind: "sleep", US: 80000},
+					Action{Kind: "forcemerge"}, Action{Kind: "sleep", US: 100000},
+					Action{Kind: "batch", Ops: genOps(r, nids, &ver)}, Action{Kind: "sleep", US: 60000})
+				in.Sessions[0].Actions = append(front, in.Sessions[0].Actions...)
 				for i := 0; i < nids; i++ {
 					if r.Chance(3, 4) {
 						ver++
@@ -911,7 +928,11 @@ func execBuilder(in In, dir, path string) vh.Result {
 	if d != nil {
 		return vh.Result{Direct: d}
 	}
-	return vh.Result{Term: cf.App("CPrefix", cf.List(batches), cf.List(copies), docsTerm(final)), Nontrivial: len(copies) > 0,
+	finalLo := len(batches) // safe batches: every returned batch is durable at the clean close
+	if in.Layout.Unsafe {
+		finalLo = 1 // only the Builder's documents are known durable
+	}
+	return vh.Result{Term: cf.App("CPrefix", cf.List(batches), cf.List(copies), cf.Nat(finalLo), docsTerm(final)), Nontrivial: len(copies) > 0,
 		Hist: []string{"builder-made-index", fmt.Sprintf("builder:copies=%d", len(copies))}, Key: fmt.Sprintf("builder/%d", len(batches))}
 }
 
